@@ -268,6 +268,50 @@ def cmdline_entries(ents, args, skip=()):
 COND_KEYS = ("r_if", "r_if_all", "requires_if", "difs")
 
 
+REL_KEYS = ("conflicts", "requires", "overrides", "r_unless", "r_unless_all", "groups") + COND_KEYS
+
+
+def fresh_room(ra, rc, lv, args, tail):
+    """the other absolute case: the line without the tail is accepted, every earlier positional is filled (or the final one
+    is last(true)), the final positional has not started, takes any string, is undelimited, stands in no relation with any
+    argument, and the tail fits its range as one occurrence -- or as one occurrence per token when it is Append with
+    num_args(1) (seeded change seed4/C05-2 stopped flushing such a positional between values: WrongNumberOfValues)"""
+    pos = positionals_in_order(args)
+    last = pos[-1]
+    if last.get("vp") not in (None, "os", "string") or last.get("delim"):
+        return None
+    if any(a.get(k) for a in args for k in REL_KEYS) or any(a["flags"] & {"exclusive", "required"} for a in args if a is last):
+        return None
+    if any("exclusive" in a["flags"] for a in args) or lv[-1][0].get("groups"):
+        return None          # (a group at the level relates its members: a non-multiple group is a conflict)
+    if last.get("vp") != "os":
+        try:
+            for t in tail:
+                t.decode("utf-8")
+        except UnicodeDecodeError:
+            return None
+    lc = levels(rc["m"])
+    if len(lc) != len(lv):
+        return None
+    ents = {x["id"]: x for x in lc[-1][0]}
+    e = ents.get(last["id"])
+    if e is not None and e["src"] == "cmdline":
+        return None
+    if "last" not in last["flags"]:
+        for a in pos[:-1]:
+            x = ents.get(a["id"])
+            if x is None or x["src"] != "cmdline":
+                return None
+    lo, hi = last.get("num") or (1, 1)
+    if last.get("action") == "append" and (lo, hi) == (1, 1):
+        pass
+    elif len(tail) < lo or (hi is not None and len(tail) > hi):
+        return None
+    STATS["judged:fresh-room"] += 1
+    return "the final positional %s has not started, stands in no relation and has room for the tail, yet the line is " \
+           "rejected with %s (without the tail: accepted)" % (last["id"].decode(), ra["ekind"])
+
+
 def room_left(ra, rc, lv, args, pre, tail, parts):
     """the absolute half of 'able to absorb them': the line without the tail is accepted, its last token is a value of the
     final multi-valued positional (so that occurrence is still collecting when `--` is read), that positional takes any string,
@@ -275,6 +319,9 @@ def room_left(ra, rc, lv, args, pre, tail, parts):
     tail: it only adds values to an argument that is present anyway (seeded change seed3/C05-3 flushed the occurrence at `--`)"""
     if rc["kind"] != "ok" or not tail or not pre:
         return None
+    fr = fresh_room(ra, rc, lv, args, tail)
+    if fr:
+        return fr
     last = positionals_in_order(args)[-1]
     if last.get("vp") not in (None, "os", "string") or last.get("delim") or any(a.get(k) for a in args for k in COND_KEYS):
         return None
@@ -402,6 +449,15 @@ def oracle(case, impl):
     if not ends_with(got, want):
         return "positional values %r do not end with the tail %r (delimiters %r, dont_delimit_trailing_values %s)" % (
             got, want, ds, "dont_delimit_trailing_values" in settings)
+    # a `last(true)` positional is where the parser JUMPS to at `--` (anchors: pos_counter block, contains_last): the whole
+    # tail belongs to it, whatever the declaration order of the positionals and whichever of them are still unfilled
+    # (seeded change seed4/C05-1 keyed the jump on the positional declared last; the tokens then filled earlier positionals)
+    lasts = [a for a in positionals_in_order(args) if "last" in a["flags"]]
+    if len(lasts) == 1 and not lasts[0].get("delim"):
+        e = by_id.get(lasts[0]["id"])
+        lv_ = [v for g in e["occ"] for v in g] if e is not None and e["src"] == "cmdline" else []
+        if tail and lv_ != tail:
+            return "the last(true) positional %s holds %r, the tail is %r" % (lasts[0]["id"].decode(), lv_, tail)
     # flags and options given before the `--` keep their values
     if rb["kind"] == "ok":
         lb = levels(rb["m"])
